@@ -470,4 +470,68 @@ theorem gen_traversal_instance :
 
 end UnwrapGen
 
+section Audit
+/-! ## AUDIT (g27): non-vacuity instances and evaluations of the generated bodies added by the reviewer; no existing declaration changed -/
+
+/-- AUDIT: a bijection table for the generated bodies at `Rat` (negation as a stand-in for `transform`) -/
+def auditBij : Nat → Bij Rat Unit Rat :=
+  fun _ => ⟨fun x _ => -x, fun y _ => -y, fun x _ => (-x, 0), fun y _ => (-y, 0)⟩
+
+/-- AUDIT: `BijectionReparam(Where(mask, W, B), b)` built under one `filter_vmap` of size 2 — every array leaf batched, `_dummy.shape = (2,)` -/
+def auditVmapWhere : Tree Rat :=
+  .wrap .reparam 1 [2] [
+    .wrap .whereK 4 [] [.arr 11 false (.batch [.base [1, 0], .base [0, 1]]), .arr 12 true (.batch [.base [5, -3], .base [2, 7]]),
+      .arr 13 true (.batch [.base [0, 0], .base [9, 9]])],
+    .static 3]
+
+/-- AUDIT non-vacuity of `WBgs` (hypothesis of `unwrap_vmapped_uniform`, `gen_unwrap_vmapped`, `gen_traversal_gen_bodies`; it had NO instance
+anywhere) for the GENERATED bodies `genWrapFn`, on a tree that contains a `Where` node — the node kind whose `WBg` clause is itself a
+slice/apply commutation — and `gen_unwrap_vmapped` applied to it; the generated bodies are really evaluated (kernel, `Rat`). -/
+theorem WBgs_audit_instance :
+    WBgs (genWrapFn auditBij fun _ cs => .node cs) [2] auditVmapWhere ∧
+    unwrap (genWrapFn auditBij fun _ cs => .node cs) auditVmapWhere
+      = .arr 12 true (.batch [.base [-5, 0], .base [-9, -7]]) ∧
+    sliceTs [1] (unwrap (genWrapFn auditBij fun _ cs => .node cs) auditVmapWhere)
+      = unwrap (genWrapFn auditBij fun _ cs => .node cs) (sliceTs [1] auditVmapWhere) := by
+  have hW : WBgs (genWrapFn auditBij fun _ cs => .node cs) [2] auditVmapWhere := by
+    simp only [WBgs, auditVmapWhere, WBg, WBgL, and_true]
+    refine ⟨⟨⟨⟨⟨_, rfl, rfl⟩, ⟨_, rfl, rfl⟩, ⟨_, rfl, rfl⟩⟩, forall_lt_two rfl rfl⟩, ⟨_, rfl⟩⟩, fun _ _ => trivial⟩
+  refine ⟨hW, rfl, ?_⟩
+  exact gen_unwrap_vmapped auditBij _ (fun _ cs cs' h => by simpa [Sk] using h) [2] [1] auditVmapWhere (by simp [IdxLt]) hW
+
+
+/-- AUDIT: elementwise `apply_updates` on array leaves -/
+def auditAdd : Arr Int → Arr Int → Arr Int
+  | .base x, .base y => .base (List.zipWith (· + ·) x y)
+  | a, _ => a
+
+/-- AUDIT: `frozen_bit_identical` APPLIED (the pre-existing `bnaf_frozen_instance` only evaluates `train`, with an `add` that ignores the
+update, so the parameters never move): two genuine update steps on the frozen BNAF layer move the bias from `[0,0]` to `[13,-16]`;
+the hypothesis `train … = some p'` holds, and the theorem gives the frozen leaves (masks AND the frozen float weight) unchanged. -/
+theorem frozen_bit_identical_audit_instance :
+    train auditAdd (partP bnafFrozen) [.node [.none, .arr 0 true (.base [3, 4]), .none], .node [.none, .arr 0 true (.base [10, -20]), .none]]
+      = some (.node [.none, .arr 14 true (.base [13, -16]), .none]) ∧
+    frozenLeaves (combine (.node [.none, .arr 14 true (.base [13, -16]), .none]) (partS bnafFrozen)) = frozenLeaves bnafFrozen ∧
+    (frozenLeaves bnafFrozen).map (·.1) = [10, 11, 12, 11, 12, 13] ∧
+    partP (combine (.node [.none, .arr 14 true (.base [13, -16]), .none]) (partS bnafFrozen))
+      = .node [.none, .arr 14 true (.base [13, -16]), .none] := by
+  have h : train auditAdd (partP bnafFrozen) [.node [.none, .arr 0 true (.base [3, 4]), .none], .node [.none, .arr 0 true (.base [10, -20]), .none]]
+      = some (.node [.none, .arr 14 true (.base [13, -16]), .none]) := rfl
+  have r := frozen_bit_identical auditAdd bnafFrozen _ _ h
+  exact ⟨h, r.2.1, rfl, r.2.2.2⟩
+
+/-- AUDIT (encoding trap in the lifting `genWrapFn`, Model/WrapGen.lean): the file's own BNAF instance writes `Where(tril_mask, W, 0)` with the
+scalar `if_false` as a NON-array leaf `.static 0` (`bnafInner`).  On that shape the generated-body lifting returns the EMPTY array (all of `W`
+is dropped), because `Tree.arrOf (.static _) = .base []`; the scalar must be encoded as the array leaf `.base [0]` to get the masked weight.
+`WrapFree` / `SkUniform` (the only properties proved of `genWrapFn` for all inputs) cannot see this; the file's BNAF instances use the symbolic
+`symF`, never `genWrapFn`. -/
+theorem genWrapFn_static_if_false_audit :
+    unwrap (genWrapFn auditBij fun _ cs => .node cs)
+      (.wrap .whereK 4 [] [.arr 11 false (.base [1, 0, 1, 1]), .arr 12 true (.base [5, -3, 2, 7]), .static 0])
+      = .arr 12 true (.base []) ∧
+    unwrap (genWrapFn auditBij fun _ cs => .node cs)
+      (.wrap .whereK 4 [] [.arr 11 false (.base [1, 0, 1, 1]), .arr 12 true (.base [5, -3, 2, 7]), .arr 13 true (.base [0])])
+      = .arr 12 true (.base [5, 0, 2, 7]) := ⟨rfl, rfl⟩
+end Audit
+
 end C12
